@@ -33,6 +33,7 @@ class _InMemoryConsumer(ConsumerT):
         self._paused = asyncio.Lock()
         self._started = False
         self.__taken_from_delayed: datetime | None = None
+        self._taken: set[Message] = set()
 
         self.__category_to_consume = {
             MessageCategory.NORMAL: self.__consume_normal,
@@ -55,8 +56,12 @@ class _InMemoryConsumer(ConsumerT):
     async def finish(self) -> None:
         await asyncio.sleep(0)
         self._started = False
-        while self._queue.processing:
-            self._queue.simple.put_nowait(self._queue.processing.pop())
+        # return only the messages which were consumed by this consumer and are still unsettled
+        for msg in self._taken:
+            if msg in self._queue.processing:
+                self._queue.processing.remove(msg)
+                self._queue.put_back(msg)
+        self._taken.clear()
         await asyncio.sleep(0)
 
     def __update_delayed(self) -> None:
@@ -120,6 +125,8 @@ class _InMemoryConsumer(ConsumerT):
                 self.__update_delayed()
 
         self._queue.processing.add(msg)
+        self._taken.intersection_update(self._queue.processing)  # forget settled messages
+        self._taken.add(msg)
         # remember the source category, so that reject can return the message there
         self._queue.taken_from[msg.key.id_] = (
             self.category.value,
